@@ -515,6 +515,9 @@ func openIPFileFunc(ipFile string) scan.OpenFileFunc {
 
 func parsePortRange(portsRange string) (r *scan.PortRange, err error) {
 	ports := strings.Split(portsRange, "-")
+	if len(ports) > 2 {
+		return nil, scan.ErrPortRange
+	}
 	var port uint64
 	if port, err = strconv.ParseUint(ports[0], 10, 16); err != nil {
 		return
